@@ -368,10 +368,20 @@ class Parser:
         """`|a, &b| body` (pure body) -> `(fun a b => body)`"""
         self.eat("op", "|")
         params = []
+        typed = []
         while not self.at("|"):
             if self.at("&"):
                 self.eat()
             params.append(self.eat("id")[1])
+            if self.at(":"):
+                # `|a: F|`: the parameter type, from the job's `type_names` (Rust type name -> Lean type)
+                self.eat()
+                ty = self.eat("id")[1]
+                if ty not in self.opts.get("type_names", {}):
+                    raise TranslateError("closure parameter type %s without a Lean type chosen by the job" % ty)
+                typed.append("(%s : %s)" % (params[-1], self.opts["type_names"][ty]))
+            else:
+                typed.append(params[-1])
             if self.at(","):
                 self.eat()
         self.eat("op", "|")
@@ -379,7 +389,7 @@ class Parser:
             raise TranslateError("closure without parameters")
         self.bound.update(params)
         body = self.expr(True)        # `return e` inside a closure body = the closure's value
-        return "(fun %s => %s)" % (" ".join(params), body)
+        return "(fun %s => %s)" % (" ".join(typed), body)
 
     LEVELS = [["||"], ["&&"], ["==", "!=", "<", "<=", ">", ">="], ["+", "-"], ["*", "/", "%"]]
 
@@ -1578,7 +1588,19 @@ class StmtParser(Parser):
         self.eat("id", "for")
         if self.at("&"):
             self.eat()
-        x = self.eat("id")[1]
+        unpack_x = ""
+        if self.at("("):
+            # `for (i, x) in …`: the element is a pair, its components are bound at the head of the body
+            self.eat()
+            comps = [self.eat("id")[1]]
+            while self.at(","):
+                self.eat(); comps.append(self.eat("id")[1])
+            self.eat("op", ")")
+            self.check_fresh(env, comps)
+            x = self.gensym("elem")
+            unpack_x = "".join("let %s := %s\n" % (c, proj(x, i, len(comps))) for i, c in enumerate(comps))
+        else:
+            x = self.eat("id")[1]
         self.eat("id", "in")
         if (self.at("&") and self.peek(1) == ("id", "mut") and self.peek(2)[0] == "id" and self.peek(2)[1] in env.names()
                 and self.peek(3) == ("op", "{")):
@@ -1614,8 +1636,8 @@ class StmtParser(Parser):
             tup = "()"
         s = self.gensym("s")
 
-        def unpack(sv):
-            return "".join("let %s := %s\n" % (nm, proj(sv, i, n)) for i, nm in enumerate(names))
+        def unpack(sv, head=True):
+            return "".join("let %s := %s\n" % (nm, proj(sv, i, n)) for i, nm in enumerate(names)) + (unpack_x if head else "")
         rho = self.opts["ret_type"]
         if has_ret:
             ty = "Gen.Step (%s) (%s)" % (sigma, rho)
@@ -1627,9 +1649,9 @@ class StmtParser(Parser):
         if has_ret:
             r = self.gensym("r")
             return ("(match Gen.loop (σ := %s) (ρ := %s) %s (fun %s (%s : %s) =>\n%s%s) %s with\n  | .ret %s => %s\n  | .next %s =>\n%s%s)"
-                    % (sigma, rho, it, x, s, sigma, unpack(s), body, tup, r, env.retraw(r), s, unpack(s), rest))
+                    % (sigma, rho, it, x, s, sigma, unpack(s), body, tup, r, env.retraw(r), s, unpack(s, False), rest))
         return ("let %s := (List.foldl (fun (%s : %s) %s =>\n%s%s) %s %s)\n%s%s"
-                % (s, s, sigma, x, unpack(s), body, tup, it, unpack(s), rest))
+                % (s, s, sigma, x, unpack(s), body, tup, it, unpack(s, False), rest))
 
 
 def apply_subst(term, subst, resub):
